@@ -1,5 +1,6 @@
 import ArrModel.C17Lift
 /-! helper lemmas for C17: the lifting combinators -/
+set_option linter.unusedSimpArgs false
 namespace ArrModel.C17
 open ArrModel
 
@@ -45,24 +46,37 @@ theorem lift3_ok (B : Bcast) (f : α → α → α → β) (a b c a' b' c' : Arr
     ∃ r, lift3 B f a b c = .ok r ∧ r.shape = a'.shape ∧ r.WF ∧
       ∀ p (h : p < a'.elems.length),
         r.elems[p]? = some (f a'.elems[p] (b'.elems[p]'(hb ▸ h)) (c'.elems[p]'(hc ▸ h))) := by
-  let hfun : Nat → β := fun i =>
-    if h : i < a'.elems.length then f a'.elems[i] (b'.elems[i]'(hb ▸ h)) (c'.elems[i]'(hc ▸ h)) else f a'.elems[0]! a'.elems[0]! a'.elems[0]!
-  have hm := mapM'_ok (fun i => Res.idx a'.elems i >>= fun x => Res.idx b'.elems i >>= fun y =>
-      Res.idx c'.elems i >>= fun z => Res.ok (f x y z)) hfun (List.range a'.elems.length) (by
-    intro i hi
-    have hi' : i < a'.elems.length := List.mem_range.1 hi
-    simp only [idx_ok _ _ hi', idx_ok b'.elems i (hb ▸ hi'), idx_ok c'.elems i (hc ▸ hi'), Res.bind_ok, hfun, hi',
-      dite_true])
-  refine ⟨⟨(List.range a'.elems.length).map hfun, a'.shape⟩, ?_, rfl, ?_, ?_⟩
-  · unfold lift3
-    rw [hh]
-    simp only [Res.bind_ok, Res.idx, List.getElem?_cons_zero, List.getElem?_cons_succ]
-    rw [hm]
-    simp only [Res.bind_ok]
-    exact new_ok _ _ (by simpa [Arr.WF] using hwf.symm)
-  · simpa [Arr.WF] using hwf
-  · intro p h
-    simp [List.getElem?_map, List.getElem?_range h, hfun, h]
+  have e0 : Res.idx [a', b', c'] 0 = .ok a' := rfl
+  have e1 : Res.idx [a', b', c'] 1 = .ok b' := rfl
+  have e2 : Res.idx [a', b', c'] 2 = .ok c' := rfl
+  rcases Nat.eq_zero_or_pos a'.elems.length with h0 | hpos
+  · refine ⟨⟨[], a'.shape⟩, ?_, rfl, ?_, ?_⟩
+    · unfold lift3
+      rw [hh]
+      simp only [Res.bind_ok, e0, e1, e2, h0, List.range_zero]
+      show Arr.new [] a'.shape = _
+      exact new_ok _ _ (by have := hwf.symm; rw [h0] at this; simpa using this)
+    · have := hwf; rw [Arr.WF, h0] at this; simpa [Arr.WF] using this
+    · intro p h; omega
+  · let x0 : α := a'.elems[0]
+    let hfun : Nat → β := fun i =>
+      if h : i < a'.elems.length then f a'.elems[i] (b'.elems[i]'(hb ▸ h)) (c'.elems[i]'(hc ▸ h)) else f x0 x0 x0
+    have hm := mapM'_ok (fun i => Res.idx a'.elems i >>= fun x => Res.idx b'.elems i >>= fun y =>
+        Res.idx c'.elems i >>= fun z => Res.ok (f x y z)) hfun (List.range a'.elems.length) (by
+      intro i hi
+      have hi' : i < a'.elems.length := List.mem_range.1 hi
+      simp only [idx_ok _ _ hi', idx_ok b'.elems i (hb ▸ hi'), idx_ok c'.elems i (hc ▸ hi'), Res.bind_ok, hfun, hi',
+        dite_true])
+    refine ⟨⟨(List.range a'.elems.length).map hfun, a'.shape⟩, ?_, rfl, ?_, ?_⟩
+    · unfold lift3
+      rw [hh]
+      simp only [Res.bind_ok, e0, e1, e2]
+      rw [hm]
+      simp only [Res.bind_ok]
+      exact new_ok _ _ (by simpa [Arr.WF] using hwf.symm)
+    · simpa [Arr.WF] using hwf
+    · intro p h
+      simp [List.getElem?_map, List.getElem?_range h, hfun, h]
 
 theorem liftSplit_none_ok (B : Bcast) (f : α → α → Option Nat → β) (a sep : Arr α) (t : Arr (α × α))
     (ht : B.pair a sep = .ok t) (hwf : t.WF) :
